@@ -377,11 +377,11 @@ def write_evidence(prop, ctx, a, wall, reported):
         'phases': ctx.phases,
         'seeds': {'verif_seed': a.seed, 'derivation': 'run seed = sha1(VERIF_SEED, property, phase, index)'},
         'components_real': ['pyworkers/*.py (unmodified, all modules; every line a pre-emption point)',
-                            'multiprocessing.connection.Connection: the stdlib Python code (send/recv/framing), instrumented like pyworkers',
+                            'multiprocessing.connection.Connection: the stdlib Python code (framing: _send_bytes / _recv_bytes / _send / _recv, poll, close), instrumented like pyworkers; only its two-line send() / recv() wrappers are re-written to pickle to / from bytes (CPython 3.12 crashes in the collector on exported BytesIO buffers in garbage)',
                             'ForkingPickler / pickle / copy / struct', _queue_model()],
         'components_stub': ['OS: scheduler, processes, signals, unix socket pairs, TCP, clock (simos; validated by the conformance suite)',
                             'PyThreadState_SetAsyncExc (pending exception raised at modelled CPython 3.12 eval-breaker points)',
-                            'threading.Thread / Event / Lock, ctypes, os, signal, socket, time: simos facades',
+                            'threading.Thread / Event / Lock, ctypes, os, signal, socket, time: simos facades (thread identifiers recycled like pthread_t, native ids unique)', 'multiprocessing.Process (spawn): simulated process; pid / is_alive() published when start() is done, like Popen',
                             'spawn bootstrap (__main__ re-import not executed)', 'logging disabled'],
     }
     cov.update(ctx.extra)
